@@ -33,7 +33,7 @@ AXES = {
     "url_list": [None, ["http://w1/"], ["http://w1/", "http://w2/"]],
     "httpseeds": [None, ["http://h1/"], ["http://h1/", "http://h2/"]],
     "outfile": ["explicit", "dir/", "default", "inside-payload"],
-    "progress": [0, 1, 2, "cli", "cli-q"],
+    "progress": [0, 1, 2, "cli", "cli-q", "cli-v"],
     "clock": [1, 10 ** 9, 2 ** 31 + 5],
     "width": [80, 20],
 }
@@ -132,7 +132,8 @@ class InfoHashCheck:
             c = run.choose(len(options), "axis:" + ax, cost=1)
             vals[ax] = options[c]
             ndev += 1 if c else 0
-        if vals["progress"] in ("cli", "cli-q") and cname not in CLI_VERSION:
+        if vals["progress"] in ("cli", "cli-q", "cli-v") and \
+                cname not in CLI_VERSION:
             return {"skip": "no CLI route for class creator", "vals": vals}
         # fresh sandbox
         sb = world.fresh_dir("c8_")
@@ -191,8 +192,9 @@ class InfoHashCheck:
         try:
             with seams.ListingSeam(chooser, under=os.path.realpath(
                     os.path.join(L, NAME))):
-                if vals["progress"] in ("cli", "cli-q"):
-                    argv = ["-q"] if vals["progress"] == "cli-q" else []
+                if vals["progress"] in ("cli", "cli-q", "cli-v"):
+                    argv = {"cli-q": ["-q"], "cli-v": ["-v"]}.get(
+                        vals["progress"], [])
                     argv += ["create", pathstr, "--meta-version",
                              CLI_VERSION[cname], "--piece-length", str(P0)]
                     if kw.get("align"):
